@@ -142,33 +142,35 @@ for _n in ("__setitem__", "__delitem__", "__iadd__", "__imul__", "append", "exte
     setattr(SharedList, _n, _logged(_n))
 
 
-def _lib_tracer(sch, th, counter=None):
-    """sys.settrace hook: every Python function call inside the library is a yield point (no event is logged)."""
+def _lib_tracer(sch, th, counter=None, lines=False):
+    """sys.settrace hook: every Python function call inside the library is a yield point (no event is logged);
+    with lines=True every executed LINE of library code is one (a switch inside a loop that calls nothing)."""
     def tracer(frame, event, arg):
-        if event == "call" and "/openskill/" in frame.f_code.co_filename:
-            if counter is not None:
-                counter[0] += 1
-            sch.yield_point(th)
+        if "/openskill/" in frame.f_code.co_filename:
+            if event == "call" or (lines and event == "line"):
+                if counter is not None:
+                    counter[0] += 1
+                sch.yield_point(th)
+            return tracer if lines else None
         return None
     return tracer
 
 
-def run_execution(sess, xid, kind, params, gname, calls, plan, thread_log, fine=False, counter=None):
+def run_execution(sess, xid, kind, params, gname, calls, plan, thread_log, fine=False, counter=None, base_first=True):
     """One execution: the calls run sequentially on a fresh model (base), then concurrently, one thread each,
     on one shared instrumented model (same).  calls = [dict(op, vals, kw)].  Appends the thread events to thread_log."""
     from drivers import make_teams
 
     sess.reset()
-    fresh = sess.model(kind, gamma=gname, **params)
-    gids = []
-    for ci, c in enumerate(calls):
-        gid = "C14:thr%d.%d" % (xid, ci)
-        gids.append(gid)
-        teams = make_teams(fresh, c["vals"])
-        if c["op"] == "rate":
-            sess.rate(fresh, teams, group=gid, role="base", **c["kw"])
-        else:
-            sess.predict(c["op"], fresh, teams, group=gid, role="base")
+    gids = ["C14:thr%d.%d" % (xid, ci) for ci in range(len(calls))]
+    if base_first:       # (the cold-start stage runs the sequential calls in another process: nothing precedes the threads here)
+        fresh = sess.model(kind, gamma=gname, **params)
+        for ci, c in enumerate(calls):
+            teams = make_teams(fresh, c["vals"])
+            if c["op"] == "rate":
+                sess.rate(fresh, teams, group=gids[ci], role="base", **c["kw"])
+            else:
+                sess.predict(c["op"], fresh, teams, group=gids[ci], role="base")
     icls = instrument(sess.classes[kind], sess.gamma_names)
     shared = sess.model(kind, gamma=gname, model_cls=icls, **params)
     constructed = {ATTR_NAME.get(a, a): attr_value(a, object.__getattribute__(shared.m, a), sess.gamma_names) for a in STD_MODEL_ATTRS}
@@ -196,7 +198,7 @@ def run_execution(sess, xid, kind, params, gname, calls, plan, thread_log, fine=
         _tls.sched, _tls.th = sch, th
         if fine:
             import sys as _sys
-            _sys.settrace(_lib_tracer(sch, th, counter if th == 0 else None))
+            _sys.settrace(_lib_tracer(sch, th, counter if th == 0 else None, lines=(fine == "line")))
         try:
             sch.yield_point(th)
             sch.record(th, "begin", arg=str(c["kw"].get("limit_sigma", "none")))
